@@ -115,13 +115,20 @@ def tgt_name(kind, name, pkg):
     return None
 
 
+def norm(t):
+    """`if M.aN ...` addresses the same interface method as `if M ...` (N only selects the literal given to As())."""
+    if t[0] == 'if' and t[1].startswith('M.a') and t[1][3:] in ('0', '1', '2'):
+        t = [t[0], 'M'] + t[2:]
+    return t
+
+
 def reference(ops):
     """Expected behaviour rows: per target the LAST instruction decides.  Returns list of strings like the probe's."""
     beh = {t: 'o' for t in TARGETS}       # 'o' | 'k<i>' | RefWhen
     pkg = 'p0'
     rows = []
     for op in ops:
-        t = op.split()
+        t = norm(op.split())
         if t[0] == 'pkg':
             pkg = t[1]
         elif t[0] == 'reset':
@@ -154,7 +161,7 @@ def ref_ids(ops):
     """Expected mocker ordinals: a repeated lookup yields the same object unless it was cancelled (or Reset) since."""
     live, n, pkg, res = {}, 0, 'p0', []
     for op in ops:
-        t = op.split()
+        t = norm(op.split())
         if t[0] == 'pkg':
             pkg = t[1]
             res.append('-')
@@ -208,7 +215,7 @@ def classify(ops, got, want):
     t = ops[-1].split()
     # F7: the failing op is a stub instruction, only its own target deviates, and that target still runs a callback
     if len(bad) == 1 and len(t) > 2 and t[2] in ('ret', 'when', 'whenret', 'rets') and g[bad[0]].startswith('k') \
-            and any(o.split()[:2] == t[:2] and o.split()[2] == 'apply' for o in ops[:-1] if len(o.split()) > 2):
+            and any(norm(o.split())[:2] == norm(t)[:2] and o.split()[2] == 'apply' for o in ops[:-1] if len(o.split()) > 2):
         return KEY_F7
     if len(bad) <= 2:
         return classify_pkg(ops)
@@ -278,6 +285,8 @@ def gen_history(rng, maxlen, bad=False):
                 k, nm = rng.choice(hs)
             if k in PKG_KINDS and rng.chance(1, 2):
                 ops.append('pkg p1')
+            if k == 'if' and rng.chance(2, 3):
+                nm = 'M.a%d' % rng.below(3)          # a different function literal handed to As()
             ops.append('%s %s %s' % (k, nm, gen_instr(rng)))
     return ' ; '.join(ops)
 
@@ -298,6 +307,9 @@ def systematic(depth):
     for k, nm in [('fn', 'fA'), ('st', 'M1'), ('if', 'M'), ('xf', 'X'), ('xs', 'um')]:
         for seq in out:
             hist.append(' ; '.join('%s %s %s' % (k, nm, a) for a in seq))
+    # the interface method again, every statement of the chain with its own As() literal
+    for seq in out:
+        hist.append(' ; '.join('if M.a%d %s' % (i % 3, a) for i, a in enumerate(seq)))
     return hist
 
 
@@ -336,6 +348,8 @@ CORPUS = [
     'pkg p1 ; xs um ret 1 ; pkg p1 ; xs um apply k2 ; pkg p1 ; xs um ret 3 ; xs um whenret 1 4 ; reset ; xs um look',
     'fn fA ret 1 ; fn fA cancel ; fn fA look ; fn fA whenret 1 2 ; reset ; fn fA look ; fn fA apply k0',
     'if M apply k1 ; if M cancel ; if M ret 2 ; reset ; if M look ; if M rets 1 2 3',
+    'if M.a1 rets 1 2 ; if M.a2 rets 3 4',                              # seed c05-4: a second statement with its own As() literal
+    'if M.a0 whenret 1 5 ; if M.a1 whenret 2 6 ; if M.a2 ret 7 ; if M.a0 rets 8 9',
     'st M1 apply k1 ; st M2 ret 5 ; st M1 cancel ; st M1 ret 2 ; reset ; st M2 look',
 ]
 
